@@ -5,9 +5,11 @@
 EXTENDS Integers, Sequences, FiniteSets, TLC, Json, IOUtils
 Traces == ndJsonDeserialize(IOEnv.VF_RECS)
 VARIABLES i, l, ph
-Init == i \in 1..Len(Traces) /\ l \in 1..Len(Traces[i].ev) /\ ph = 0
+IsConn(k) == "op" \in DOMAIN Traces[k] /\ Traces[k].op = "conn"        \* a record of a real connection with configured limits
+Init == i \in 1..Len(Traces) /\ l \in (IF IsConn(i) THEN {1} ELSE 1..Len(Traces[i].ev)) /\ ph = 0
 Next == ph = 0 /\ ph' = 1 /\ UNCHANGED <<i, l>>
-J == ph = 1
+JJ == ph = 1
+J == JJ /\ ~IsConn(i)
 T == Traces[i]
 E == T.ev[l]
 N == Len(T.pathOf)
@@ -37,6 +39,11 @@ C16_CancelledNeverRuns == J => \A r \in 1..N : (E.st.ret[r] = "err") => (T.ev[Le
 \* "once all calls have returned the limiter is idle again so that a new request is admitted immediately"
 C16_IdleAtEnd == (J /\ Last) => (T.allReturned /\ T.hung = <<>> /\ T.queueObjects = 0 /\ T.probeAdmitted
                                  /\ \A k \in 1..Len(T.finalQ) : T.finalQ[k].processed = 0 /\ T.finalQ[k].waiting = 0)
+\* the limits as configured on a real udp / tcp client connection (option plumbing included): with the peer withholding its
+\* answers, the requests on the wire never exceed the configured total / per-path limit (0 = unlimited), and all calls end
+C16_ConnLimits == (JJ /\ IsConn(i)) => /\ (T.l > 0 => T.maxTotal <= T.l)
+                                       /\ (T.el > 0 => T.maxPerPath <= T.el)
+                                       /\ T.allReturned
 \* conformance only: the observed state is the one the specification predicts for this event
 K16_Conforms  == J => (E.settled /\ \E k \in 1..Len(E.exps) : E.st = E.exps[k])
 =============================================================================
